@@ -62,3 +62,63 @@ def contract(prop):
         prop=prop, prefer="cvc5",
         descr="every password (bytes), every 2-character salt; DES core abstract",
     )
+
+
+# ---- bsdi_crypt's key folding: every 8-byte block of the password enters the DES key ---------------------------------------
+KF = z3.Function("crypt_key_of_block", S, z3.IntSort())          # _crypt_secret_to_key: first 8 bytes -> 64-bit key
+EF = z3.Function("des_encrypt_int_block", z3.IntSort(), z3.IntSort(), z3.IntSort())
+FOLD = z3.Function("bsdi_key_fold", S, z3.IntSort(), z3.IntSort())
+XOR = z3.Function("xor64", z3.IntSort(), z3.IntSort(), z3.IntSort())
+
+
+def _kf(it, a, k):
+    from pyvc.values import SInt
+    s = it.to_z3(a[0])
+    v = KF(z3.SubString(s, 0, 8))
+    it.run.assume(KF(s) == v)  # reads at most 8 bytes
+    return SInt(v)
+
+
+def _ef(it, a, k):
+    from pyvc.values import SInt
+    return SInt(EF(it.to_z3(a[0], "int"), it.to_z3(a[1], "int")))
+
+
+def fold(it, s, j):
+    f = FOLD(s, j)
+    prev = FOLD(s, j - 1)
+    it.run.assume(f == z3.If(j <= 1, KF(z3.SubString(s, 0, 8)), XOR(EF(prev, prev), KF(z3.SubString(s, 8 * (j - 1), 8)))))
+    return f
+
+
+def _fold_spec(it, args, kwargs):
+    from pyvc.values import SInt
+    return SInt(fold(it, it.to_z3(args[0]), it.to_z3(args[1], "int")))
+
+
+class _XorInt:
+    pass
+
+
+def bsdi_key_contract(prop):
+    """``^`` on the two abstract 64-bit values is itself abstract (xor64): the code's expression is rewritten through the
+    'xor' hook so that both sides use the same uninterpreted function"""
+    from pyvc.values import SInt
+
+    def xor_hook(it, a, b):
+        return SInt(XOR(it.to_z3(a, "int"), it.to_z3(b, "int")))
+
+    return Contract(
+        "_bsdi_secret_to_key", f"{D}::_bsdi_secret_to_key",
+        params={"secret": Bytes()},
+        globals={"_crypt_secret_to_key": SStub(_kf, "_crypt_secret_to_key", trusted="64-bit key of the first 8 bytes (7 bits each): abstract"),
+                 "des_encrypt_int_block": SStub(_ef, "des_encrypt_int_block", trusted="DES core: abstract (compared with FIPS 46-3 by the stand-in)"),
+                 "op.BitXor": xor_hook},
+        specs={"fold": _fold_spec},
+        loops={"_bsdi_secret_to_key#0": Loop(invariant=["idx % 8 == 0", "idx >= 8", "idx == 8 or idx - 8 < end", "end == len(secret)", "key_value == fold(secret, idx // 8)"],
+                                              modifies=["idx", "key_value", "next", "tmp_value"], decreases="end - idx + 8")},
+        ensures=[("key == fold over max(1, ceil(len/8)) blocks: K(block0), then E(k, k) xor K(block j) -- every 8-byte block of the password enters the key",
+                  "result == fold(secret, 1 if len(secret) <= 8 else (len(secret) + 7) // 8)")],
+        prop=prop,
+        descr="every password (bytes); DES core and the per-block key abstract",
+    )
